@@ -114,6 +114,8 @@ type Exec struct {
 	nonil    int
 	lawMode  bool
 	curLoop  *loopData
+	unfold   int
+	unfolded map[string]bool
 	splits   []*Term
 	caseMask int
 	nSplits  int
